@@ -636,7 +636,7 @@ func ruleSender() *Rule {
 		ID: id,
 		Text: "In sendAppendEntries: (SNAP-FALLBACK) the log is read (GetEntry for the previous entry and for the entries sent) only at indices > lastIncludedIndex and < NextIndex(); " +
 			"(MATCH-PROV) follower.matchIndex := request.PrevLogIndex + len(entries) of the request sent in this call, only with response.Success ∧ state = Leader ∧ member after the window; becomeLeader resets every matchIndex to 0; " +
-			"(BACKOFF) on rejection nextIndex := response.Index; " +
+			"(BACKOFF) on rejection nextIndex := max(response.Index, matchIndex+1); " +
 			"(SNAP-HANDSHAKE) in sendInstallSnapshot matchIndex/nextIndex advance to the snapshot label only with Done ∧ response.BytesWritten = offset sent, otherwise the file is re-positioned to the follower's offset.",
 		Floor: 6,
 		Run: func(p *Program) []Obligation {
@@ -783,10 +783,19 @@ func ruleSender() *Rule {
 					rej := sp.Where(o.State, func(pt int) bool { return iSucc >= 0 && sp.Val(pt, iSucc) == 0 })
 					switch {
 					case !rej.IsEmpty() && succ.IsEmpty():
-						if val == respIndex && respIndex != "" {
-							ob.Verdict, ob.Detail = Discharged, "on rejection nextIndex := response.Index (the follower's hint)"
-						} else {
-							ob.Verdict, ob.Detail = Violated, "on rejection nextIndex := "+val+", must be the follower's hint response.Index"
+						// the follower's hint, but never at or below what the follower is known to hold: the answer may be a
+						// late one (several requests are in flight at once), and a nextIndex <= matchIndex makes the leader
+						// send the same size-bounded batch for ever — acknowledged each time, advancing nothing (D51)
+						usesHint := respIndex != "" && strings.Contains(val, respIndex)
+						bounded := strings.Contains(val, "Max") && strings.Contains(val, ".matchIndex") && (strings.Contains(val, "(1 + ") || strings.Contains(val, " + 1)"))
+						switch {
+						case usesHint && bounded:
+							ob.Verdict, ob.Detail = Discharged, "on rejection nextIndex := max(response.Index, matchIndex+1): the follower's hint, never below what it is known to hold"
+						case val == respIndex && respIndex != "":
+							ob.Verdict, ob.Detail = Violated, "on rejection nextIndex := response.Index without a lower bound: a LATE rejection (its request overtaken by one that succeeded) moves nextIndex to or below matchIndex; "+
+								"every later request then carries the same size-bounded batch, which the follower acknowledges without the leader advancing nextIndex (the success branch advances only beyond matchIndex): replication to that follower stalls for ever"
+						default:
+							ob.Verdict, ob.Detail = Violated, "on rejection nextIndex := "+val+", must be max(response.Index, matchIndex+1)"
 						}
 					case !succ.IsEmpty() && rej.IsEmpty():
 						if strings.Contains(val, "Max") || strings.Contains(val, "max") || strings.Contains(val, reqPrev) {
